@@ -4,6 +4,7 @@ import Genq.Model.Http
 import Genq.Model.HttpResp
 import Genq.Model.Names
 import Genq.Model.Main
+import Genq.Model.Ws
 open Lean
 namespace Genq.Driver
 
@@ -131,6 +132,82 @@ def opMain (op : String) (j : Json) : Except String Json := do
     return Json.mkObj [("returned", ret), ("stuck", st.stuck), ("fs", Json.arr fsOut.toArray)]
   | _ => throw s!"unknown op {op}"
 
+def getFlags (j : Json) : Except String Ws.Flags := do
+  let fj ← j.getObjVal? "flags"
+  return { idempotentEnd := (← getBool fj "idempotentEnd"), closeLiveOnly := (← getBool fj "closeLiveOnly"),
+           completeBeforeClose := (← getBool fj "completeBeforeClose"), closeAlwaysCleans := (← getBool fj "closeAlwaysCleans"),
+           errChanBuffered := (← getBool fj "errChanBuffered") }
+
+def parseEv (j : Json) : Except String Ws.Ev := do
+  match (← getStr j "e") with
+  | "subscribe" => pure .subscribe
+  | "unsubscribe" => pure (.unsubscribe (← getNat j "i"))
+  | "close" => pure .close
+  | "step" => pure (.step (← getNat j "c"))
+  | "stepFail" => pure (.stepFail (← getNat j "c"))
+  | "rstep" => pure .rstep
+  | "readErr" => pure .readErr
+  | "recvData" => pure (.recvData (← getNat j "i"))
+  | "recvErr" => pure .recvErr
+  | "server" =>
+    match (← getStr j "m") with
+    | "next" => pure (.server (.next (← getNat j "i") (← getNat j "p") ((j.getObjValAs? Bool "dec").toOption.getD true)))
+    | "complete" => pure (.server (.complete (← getNat j "i")))
+    | "other" => pure (.server (.other (← getNat j "i")))
+    | "garbage" => pure (.server .garbage)
+    | m => throw s!"msg {m}"
+  | e => throw s!"event {e}"
+
+def frameJson : Ws.Frame → Json
+  | .init => Json.arr #["init"]
+  | .subscribe i => Json.arr #["subscribe", i]
+  | .complete i => Json.arr #["complete", i]
+  | .close => Json.arr #["close"]
+
+def callJson : Ws.Call → Json
+  | .subWrite i => Json.arr #["inWrite", "subscribe", i]
+  | .unsubWrite i => Json.arr #["inWrite", "complete", i]
+  | .closeUnsubWrite i .. => Json.arr #["inWrite", "complete", i]
+  | .closeFrameWrite .. => Json.arr #["inWrite", "close"]
+  | .ret ok => Json.arr #["ret", ok]
+  | .closeFinal _ => Json.arr #["blocked", "mutex"]
+  | _ => Json.arr #["internal"]
+
+def readerJson : Ws.Reader → Json
+  | .top => "top" | .read => "read" | .send i p => Json.arr #["send", i, p] | .herr => "herr"
+  | .herrSend => "herrSend" | .done => "done"
+
+def panicJson : Option Ws.PanicKind → Json
+  | none => Json.null
+  | some (.closeOfClosed i) => Json.arr #["closeOfClosed", i]
+  | some (.sendOnClosed i) => Json.arr #["sendOnClosed", i]
+  | some .closeOfClosedErrChan => Json.arr #["closeOfClosedErrChan"]
+  | some .sendOnClosedErrChan => Json.arr #["sendOnClosedErrChan"]
+
+def worldJson (w : Ws.World) : Json :=
+  Json.mkObj [
+    ("frames", Json.arr (w.frames.map frameJson).toArray),
+    ("subs", Json.arr (w.subs.map fun s => Json.mkObj [("registered", s.registered), ("ended", s.ended), ("closes", s.closes),
+        ("nexts", Json.arr (s.nexts.map fun (n : Nat) => (n : Json)).toArray), ("delivered", Json.arr (s.delivered.map fun (n : Nat) => (n : Json)).toArray)]).toArray),
+    ("isClosing", w.isClosing), ("connCloses", w.connCloses), ("errChanCloses", w.errChanCloses),
+    ("errQueued", w.errQueued), ("errReceived", w.errReceived), ("mu", w.mu),
+    ("reader", readerJson w.reader), ("calls", Json.arr (w.calls.map callJson).toArray), ("panic", panicJson w.panic)]
+
+def opWs (op : String) (j : Json) : Except String Json := do
+  match op with
+  | "ws.run" =>
+    -- park-level run; reports the index of the first event that is not enabled (if any)
+    let f ← getFlags j
+    let evs ← (← getArr j "evs").toList.mapM parseEv
+    let rec go (w : Ws.World) (k : Nat) : List Ws.Ev → Ws.World × Option Nat
+      | [] => (w, none)
+      | e :: es => match Ws.stepPark f w e with
+        | none => (w, some k)
+        | some w' => go w' (k + 1) es
+    let (w, bad) := go Ws.init 0 evs
+    return Json.mkObj [("world", worldJson w), ("disabledAt", match bad with | some k => (k : Json) | none => Json.null)]
+  | _ => throw s!"unknown op {op}"
+
 def dispatch (j : Json) : Json :=
   let r : Except String Json := do
     let op ← getStr j "op"
@@ -138,6 +215,7 @@ def dispatch (j : Json) : Json :=
     else if op.startsWith "resp." then opResp op j
     else if op.startsWith "names." then opNames op j
     else if op.startsWith "main." then opMain op j
+    else if op.startsWith "ws." then opWs op j
     else throw s!"unknown op {op}"
   let idf := match j.getObjVal? "id" with | .ok v => [("id", v)] | .error _ => []
   match r with
